@@ -19,12 +19,14 @@ DOCUMENTED_SUFFIX = {"csv", "json", "pickle"}     # formats whose docstring prom
 
 class RoundTrip(Harness):
     prop = "C12"; opname = "file_roundtrip"
-    def __init__(self, cls, fmt, maxn, extended=False):
-        self.cls = cls; self.fmt = fmt; self.maxn = maxn; self.extended = extended
-        self.name = f"C12.{cls}.{fmt}{'.dates' if extended else ''}.n{maxn}"
+    def __init__(self, cls, fmt, maxn, extended=False, notext=False):
+        self.cls = cls; self.fmt = fmt; self.maxn = maxn; self.extended = extended; self.notext = notext
+        self.name = f"C12.{cls}.{fmt}{'.dates' if extended else ''}{'.notext' if notext else ''}.n{maxn}"
         self.bounds = {"rows / items": f"1..{maxn}", "suffix": ["", ".gz", ".bz2", ".xz"], "options": "sep in {',', ';', tab}, header, encoding in {utf-8, latin-1}",
                        "columns": ("date, datetime64[us], timedelta64[us] (with NaT), bool" if extended else "int64, float64 (with NaN), string" + (", date, datetime64[us], timedelta64[us] (with NaT), bool" if fmt in ("pickle", "npz") else "")) if cls == "DataFrame" else
                                   "text values from a pool with CR LF, LF, quotes, delimiters, tab, non-ASCII (a lone CR is not representable by Python 3.12's csv writer, which leaves it unquoted: outside the claim)"}
+        if notext:
+            self.bounds.update({"columns": "int64, float64 (with NaN), bool - no text column", "options": "sep in {',', ';', tab}, header, encoding in {utf-8, latin-1, utf-16}"})
         self.symbolic = ["cell values (opaque to the serializer models)"]; self.choice_dims = ["suffix", "sep", "header", "encoding"]
         self.goals = ["util.py:xopen", f"{'data_frame' if cls == 'DataFrame' else 'list_of_dicts'}.py:{cls}.write_{fmt}",
                       f"{'data_frame' if cls == 'DataFrame' else 'list_of_dicts'}.py:{cls}.read_{fmt}"]
@@ -37,15 +39,17 @@ class RoundTrip(Harness):
             if sep != ",": w.append(["sep", sep]); r.append(["sep", sep])
             if choice("header", [True, False]) is False: w.append(["header", False]); r.append(["header", False])
         if self.fmt in ("csv", "json"):
-            enc = choice("encoding", ["utf-8", "latin-1"])
+            enc = choice("encoding", ["utf-8", "latin-1"] + (["utf-16"] if self.notext else []))     # utf-16: not a superset of ASCII, so the encoding matters without any text in the data
             if enc != "utf-8": w.append(["encoding", enc]); r.append(["encoding", enc])
         if self.cls == "DataFrame":
             cols = {"a": mk_col("i", n, "a"), "f": mk_col("f", n, "f"), "s": mk_col("T", n, "s")}
+            if self.notext:
+                cols = {"a": mk_col("i", n, "a"), "f": mk_col("f", n, "f"), "b": mk_col("b", n, "b")}
             if self.fmt in ("pickle", "npz") or self.extended:
                 # the binary formats keep every dtype: dates, datetimes, timedeltas (with NaT) and booleans too
                 if self.extended: cols = {}
                 cols.update({"d": mk_col("D", n, "d"), "t": mk_col("us", n, "t"), "w": mk_col("td", n, "w"), "b": mk_col("b", n, "b")})
-            if dict((k, v) for k, v in w).get("encoding") == "latin-1":
+            if dict((k, v) for k, v in w).get("encoding") == "latin-1" and "s" in cols:
                 for c in cols["s"].cells:
                     for ch in list(c.ch) + [c.sfx]: ctx.assume(z3.ULE(ch, 0xFF), note="data representable in the chosen encoding (latin-1: code points <= U+00FF)")
                 c0 = cols["s"].cells[0]
@@ -63,7 +67,7 @@ class RoundTrip(Harness):
         # the serializers are contract models: aim the real-file observation at what the statement names (delimiters,
         # quotes, newlines inside strings, Unicode, missing first values, numeric corners)
         obj = inp["obj"]
-        if not isinstance(obj, Frame): return []
+        if not isinstance(obj, Frame) or self.notext: return []
         if "s" not in obj.cols:
             W_ = obj.cols["w"].cells; B = obj.cols["b"].cells
             return [("a missing timedelta beside a present one", z3.And(z3.Or([c == symx.INT64_MIN for c in W_]), z3.Or([c != symx.INT64_MIN for c in W_]))),
@@ -133,5 +137,6 @@ def harnesses(tier):
     n = 1 if tier == "quick" else 2
     hs = [RoundTrip("DataFrame", f, 2 if f in ("pickle", "npz", "parquet", "csv") else n) for f in ("pickle", "npz", "parquet", "csv", "json")]
     hs.append(RoundTrip("DataFrame", "parquet", 2, extended=True))
+    hs.append(RoundTrip("DataFrame", "csv", n, notext=True))
     hs += [RoundTrip("ListOfDicts", f, n) for f in ("pickle", "json", "csv")]
     return hs
